@@ -160,7 +160,7 @@ def real_init(env, v, call=False, empty=False):
     from shexer.shaper import Shaper
     def _al(*a): raise Hang()
     old = signal.signal(signal.SIGALRM, _al)
-    signal.alarm(10)
+    signal.alarm(45)
     try:
         try:
             sh = Shaper(**env.kwargs(v, empty=empty))
